@@ -2,6 +2,7 @@ import SkgVerif.Lemmas.Kriging
 import SkgVerif.Lemmas.KrigeAlgebra
 import SkgVerif.Lemmas.KrigeBridge
 import SkgVerif.Gen.Source
+import SkgVerif.Props.Transcribed.C07
 /-!
 # C07 — ordinary kriging returns the solution of the ordinary-kriging system
 -/
